@@ -82,4 +82,73 @@ theorem findMember_self : ∀ (pre : List VMember) (n : String) (t : VTy) (d : O
     rw [this]
     exact findMember_self pre n t d post (fun m hm => h m (List.mem_cons_of_mem _ hm))
 
+theorem wfFields_mem : ∀ (fs : List SField), wfFields fs → ∀ n v, SField.mk n v ∈ fs → wfVal v
+  | [], _, _, _, h => by cases h
+  | .mk n' v' :: rest, hw, n, v, h => by
+    simp only [wfFields] at hw
+    cases h with
+    | head => exact hw.1
+    | tail _ hm => exact wfFields_mem rest hw.2 n v hm
+
+mutual
+/-- **the reading is a function**: a value notation that names no component twice denotes at most one abstract value
+    under a governing type -/
+theorem denotes_unique : ∀ (v : SVal), wfVal v → ∀ (ty : VTy) (x y : AbsVal), Denotes ty v x → Denotes ty v y → x = y
+  | .atom a, _, ty, x, y, hx, hy => by
+    cases hx; cases hy; rfl
+  | .choice a v, hw, ty, x, y, hx, hy => by
+    cases hx with
+    | choice hc1 hf1 hd1 =>
+      cases hy with
+      | choice hc2 hf2 hd2 =>
+        rw [hc1] at hc2
+        cases hc2
+        rw [hf1] at hf2
+        cases hf2
+        rw [denotes_unique v (by simpa [wfVal] using hw) _ _ _ hd1 hd2]
+  | .braces fs, hw, ty, x, y, hx, hy => by
+    simp only [wfVal] at hw
+    cases hx with
+    | list hc1 ha1 =>
+      cases hy with
+      | list hc2 ha2 =>
+        rw [hc1] at hc2; cases hc2
+        rw [all_unique fs hw.2 _ _ _ ha1 ha2]
+      | record hc2 _ _ => rw [hc1] at hc2; cases hc2
+    | record hc1 hn1 hm1 =>
+      cases hy with
+      | list hc2 _ => rw [hc1] at hc2; cases hc2
+      | record hc2 hn2 hm2 =>
+        rw [hc1] at hc2; cases hc2
+        rw [members_unique fs hw.1 hw.2 _ _ _ _ hm1 hm2]
+theorem all_unique : ∀ (fs : List SField), wfFields fs → ∀ (e : VTy) (xs ys : List AbsVal), DenotesAll e fs xs → DenotesAll e fs ys → xs = ys
+  | [], _, e, xs, ys, hx, hy => by cases hx; cases hy; rfl
+  | .mk n v :: rest, hw, e, xs, ys, hx, hy => by
+    simp only [wfFields] at hw
+    cases hx with
+    | cons h1 r1 =>
+      cases hy with
+      | cons h2 r2 =>
+        rw [denotes_unique v hw.1 _ _ _ h1 h2, all_unique rest hw.2 _ _ _ r1 r2]
+theorem members_unique : ∀ (fs : List SField), fieldsOnce fs → wfFields fs → ∀ (all ms : List VMember) (xs ys : List AbsField),
+    DenotesMembers all ms fs xs → DenotesMembers all ms fs ys → xs = ys
+  | fs, ho, hw, all, [], xs, ys, hx, hy => by cases hx; cases hy; rfl
+  | fs, ho, hw, all, m :: ms, xs, ys, hx, hy => by
+    cases hx with
+    | given hm1 ht1 hd1 r1 =>
+      cases hy with
+      | given hm2 ht2 hd2 r2 =>
+        have ev := ho _ _ _ hm1 hm2
+        subst ev
+        rw [ht1] at ht2; cases ht2
+        have := denotes_unique _ (wfFields_mem fs hw _ _ hm1) _ _ _ hd1 hd2
+        rw [this, members_unique fs ho hw all ms _ _ r1 r2]
+      | dflt hno _ => exact absurd hm1 (hno _)
+    | dflt hno1 r1 =>
+      cases hy with
+      | given hm2 _ _ _ => exact absurd hm2 (hno1 _)
+      | dflt _ r2 => rw [members_unique fs ho hw all ms _ _ r1 r2]
+end
+
+
 end Link.Values
